@@ -163,6 +163,8 @@ pub fn spaces(tier: Tier) -> Vec<Space<'static>> {
         let al: Vec<RVal> = vec![
             RVal::u(0), RVal::u(1), RVal::f(1.0), RVal::i(-1), RVal::f(0.0), RVal::s("a"), RVal::s("\u{20000}"), RVal::s("\u{10FFFF}"), RVal::s("💎"), RVal::s(""), RVal::Null,
             RVal::arr(vec![RVal::u(0)]), RVal::arr(vec![RVal::f(1.0)]), RVal::obj(vec![("a", RVal::u(0))]), RVal::obj(vec![("\u{20000}", RVal::s("\u{30000}"))]),
+            // keys whose byte order differs from their length order (a producer with another key order shows)
+            RVal::obj(vec![("aa", RVal::u(1)), ("b", RVal::u(2))]),
         ];
         let mut docs: Vec<RVal> = vec![RVal::Arr(vec![])];
         for x in &al {
@@ -179,14 +181,17 @@ pub fn spaces(tier: Tier) -> Vec<Space<'static>> {
                     let own = guard(|| jsonb::parse_value(&text).map(|v| v.to_vec())).ok().and_then(|r| r.ok()).unwrap_or_default();
                     let mut esc = String::new();
                     crate::checks::c11::escaped_text(&d, &mut esc);
-                    let f = vec![enc(&d), own, text, esc.into_bytes()];
+                    // the same document as rebuilt by the crate's builders (strip_nulls rebuilds every
+                    // container; no object of this universe has a null member, so the value is unchanged)
+                    let rebuilt = guard(|| { let mut o = vec![]; jsonb::strip_nulls(&enc(&d), &mut o).map(|_| o) }).ok().and_then(|r| r.ok()).unwrap_or_default();
+                    let f = vec![enc(&d), own, text, esc.into_bytes(), rebuilt];
                     (d, f)
                 })
                 .collect(),
         );
         let m = forms.len();
-        sp.push(Space::new("operands in four forms (model bytes, jsonb's own encoding of the text, text, escaped text): all pairs x all form pairs", m as u64, move |i, acc| {
-            const FN: [&str; 4] = ["model-bytes", "own-encoder-bytes", "text", "escaped-text"];
+        sp.push(Space::new("operands in five forms (model bytes, jsonb's own encoding of the text, text, escaped text, rebuilt by the crate's builders): all pairs x all form pairs", m as u64, move |i, acc| {
+            const FN: [&str; 5] = ["model-bytes", "own-encoder-bytes", "text", "escaped-text", "rebuilt-by-strip_nulls"];
             let (a, fa) = &forms[i as usize];
             for (b, fb) in forms.iter() {
                 let ei = ops::array_intersection(a, b);
@@ -243,7 +248,7 @@ pub fn spaces(tier: Tier) -> Vec<Space<'static>> {
 
 pub fn meta(tier: Tier) -> (String, serde_json::Value, Vec<String>) {
     (
-        "every list of bounded length over a 13-element alphabet built for identity collisions (1 unsigned / 1 signed / 1.0 / \"a\" / null / [1] / [1.0] / {\"a\":1}, strings whose payload bytes equal a number's or an object's, payloads over 255 bytes), plus scalar and object inputs; every ordered pair for the binary functions; a second universe (15 elements incl. 0, -1, 0.0, strings from planes 1, 2 and 16, lists <= 2) with every operand in four forms - model bytes, jsonb's own encoding of the text, JSON text, text with \\u escapes - over all pairs and all form pairs; a size sweep; model = multiset semantics with identity = same value in same number encoding; laws re-checked on the implementation's own outputs. Non-trivial = first list has >=2 elements and second >=1.".into(),
+        "every list of bounded length over a 13-element alphabet built for identity collisions (1 unsigned / 1 signed / 1.0 / \"a\" / null / [1] / [1.0] / {\"a\":1}, strings whose payload bytes equal a number's or an object's, payloads over 255 bytes), plus scalar and object inputs; every ordered pair for the binary functions; a second universe (15 elements incl. 0, -1, 0.0, strings from planes 1, 2 and 16, lists <= 2) with every operand in five forms - model bytes, jsonb's own encoding of the text, JSON text, text with \\u escapes, the document rebuilt by strip_nulls - over all pairs and all form pairs; a size sweep; model = multiset semantics with identity = same value in same number encoding; laws re-checked on the implementation's own outputs. Non-trivial = first list has >=2 elements and second >=1.".into(),
         json!({"max_list_len": if tier.thorough() {4} else {3}, "alphabet": 8, "pairs": "all ordered pairs"}),
         vec![],
     )
